@@ -154,7 +154,7 @@ def run_faults(scratch, tier):
 def run_threads(scratch, seed, tier, budget):
     out = {"failures": [], "stats": {}, "samples": [], "notes": ["thread stress is supporting validation; schedules are quantified in the Lean model only"]}
     nthreads = 8 if tier == "quick" else 16
-    nsteps = int((150 if tier == "quick" else 1500) * budget)
+    nsteps = int((360 if tier == "quick" else 2400) * budget)
     for b in _backends(scratch):
         r = _run(scratch, "threads.py", [seed, nthreads, nsteps], b)
         for f in r.get("failures", []):
